@@ -542,8 +542,8 @@ def run(ctx: common.Ctx) -> None:
         n_core: int | None = max(3, int(420 * scale))
         n_ext, n_cli, core_max = max(3, int(580 * scale)), max(1, int(24 * scale)), 3
     else:
-        n_core = None if scale >= 1 else max(3, int(18000 * scale))
-        n_ext, n_cli, core_max = max(3, int(6000 * scale)), max(1, int(300 * scale)), 3
+        n_core = max(3, int(3000 * scale))
+        n_ext, n_cli, core_max = max(3, int(2500 * scale)), max(1, int(100 * scale)), 3
     ctx.rule = ("layout = set of files over root/{a,b}/{a,b} x {__init__,a,b} x {.py,.pyi} (core: every layout of <= 3 files, one per "
                 "a<->b class) or sampled 2-8 files, depth <= 3, with -stubs / invalid-identifier / dot / __pycache__ / site-packages "
                 "directory names; x namespace_packages off/on/+explicit_package_bases x cwd parent/root/inside x MYPYPATH|mypy_path "
